@@ -348,6 +348,7 @@ def run(chk):
             chk.violation("C14 %s: generated block is outside the reflexivity theorem's premise (reflb = false)" % kind,
                           dict(what, correspondence="Equality.reflb"), False)
     files_check(chk, rng)
+    stale_handle_files(chk, rng)
 
 
 def files_check(chk, rng):
@@ -389,6 +390,55 @@ def files_check(chk, rng):
         if same is not True or diff is not False:
             chk.violation("C14: files holding %r: equal content compares %r, one block changed (%s) compares %r" %
                           (kinds, same, muts[0][0], diff), {"kinds": kinds, "changed": muts[0][0]}, True)
+            return
+
+
+def stale_handle_files(chk, rng):
+    """file equality looks at the files as they are NOW: an object that was inside a context before another object
+    added / removed a block of its file still compares equal to a byte-identical copy of the file (both ways), and
+    unequal to a copy taken before the change"""
+    import shutil as _sh
+    from basictdf import Tdf
+    from harness import container
+    work = os.path.join(chk.work, "c14stale")
+    os.makedirs(work, exist_ok=True)
+    for j in range(8 if chk.tier == "quick" else 60):
+        p, before, after = (os.path.join(work, "s%d_%s.tdf" % (j, x)) for x in ("live", "before", "after"))
+        for f in (p, before, after):
+            if os.path.exists(f):
+                os.unlink(f)
+        kinds = rng.sample(["EV", "EM", "D3", "FT", "PD", "OS"], 3)
+        specs = [container.small_block(k, rng, 1) for k in kinds]
+        for sp in specs:
+            sp.v = sanitize(sp.kind, sp.v)
+        with container.scripted_clock():
+            container.Clock.now = container.T0
+            Tdf.new(p)
+            container.run_impl(p, [[("add", sp, None) for sp in specs[:2]]])
+            first = Tdf(p)
+            with first:
+                pass                                  # the long-lived object has seen the table once
+            _sh.copyfile(p, before)
+            change = ("add", specs[2], None) if j % 2 == 0 else ("remove", specs[0].ty())
+            with Tdf(p).allow_write() as other:       # somebody else changes the number of blocks
+                container.apply_op(other, change)
+            _sh.copyfile(p, after)
+        try:
+            cp_after, cp_before = Tdf(after), Tdf(before)
+            if j % 4 < 2:                      # the other operand has been used before, or is brand new
+                cp_after.has_events
+                with cp_before:
+                    pass
+            same = (first == cp_after, cp_after == first)
+            diff = (first == cp_before, cp_before == first)
+        except Exception as e:
+            same, diff = "raised " + common.exc_info(e), None
+        chk.note_case(("stale handle files", tuple(kinds), j), True)
+        chk.count("file pair through a long-lived object")
+        if same != (True, True) or diff != (False, False):
+            chk.violation("C14: a Tdf object that was inside a context before another object %s a block compares %r with a byte-identical "
+                          "copy of its file and %r with a copy taken before the change (expected (True, True) and (False, False))" %
+                          ("added" if j % 2 == 0 else "removed", same, diff), {"kinds": kinds, "change": change[0]}, True)
             return
 
 
